@@ -223,10 +223,13 @@ def position_is_rmw(chk, F, rule, cfg):
                site='lookup.arg', what='position is not the RMW result', found=show(k), expected='Atomic::fetch_add(&self.call_counter.actual_count, 1, _)')
     sel = F.fn('eval::DynCtx::match_call_pattern')
     found = 0
-    for p in symex.Interp(F, inline=lambda f, d, n: f.kind in ('fn', 'assoc') and f.locals[0]['ty'] == 'usize' and len(f.blocks) < 30).run(sel):
+    from facts import strip_generics
+    from props import evalcore as E
+    bumpers = E.slot_bumpers(F)
+    for p in symex.Interp(F, inline=lambda f, d, n: f.kind in ('fn', 'assoc') and len(f.blocks) < 30 and (f.locals[0]['ty'] == 'usize' or strip_generics(f.defp) in bumpers)).run(sel):
         for e in p.calls(r'^fn_mocker::FnMocker::find_call_pattern_for_call_order$'):
             found += 1
-            k = strip(e.data[2][1])
+            k = E.unwrap_newtype(e.data[2][1])      # (the slot may travel in a newtype: `CallOrder(i)`)
             ok = is_call(k, r'Atomic\w*::fetch_add$') and field_path(k[2][0])[1][-2:] == ['shared_state', 'next_ordered_call_index']
             chk.ob(rule, 'the ordered slot used for lookup is the global counter\'s fetch_add return value, unchanged', ok, config=cfg, fn=sel,
                    site='slot-lookup.arg', what='slot is not the RMW result', found=show(k), expected='Atomic::fetch_add(&self.shared_state.next_ordered_call_index, 1, _)')
